@@ -1,4 +1,71 @@
-// harness ops for segment (filled in when the module is ported)
-pub fn handle(_op: &str, _args: &[&str], _text: &str) -> Option<String> {
-    None
+// harness ops for segment.rs (C05): the string wrappers of wrappers.rs and the trait API with
+// explicit params.
+//
+//   seg_halt <segs> | prog        wrappers::py_segment_cant_halt(prog, segs)
+//   seg_blank <segs> | prog       wrappers::py_segment_cant_blank(prog, segs)
+//   seg_spin_out <segs> | prog    wrappers::py_segment_cant_spin_out(prog, segs)
+//   segp_halt <states> <colors> <segs> | prog       CompProg::from_str(prog).seg_cant_halt((states, colors), segs)
+//   segp_blank ... / segp_spin_out ...              likewise
+//
+// output: halt | blank | repeat | spinout | depth_limit | segment_limit | refuted(<step>)
+use crate::instrs::{CompProg, Parse as _};
+use crate::segment::{Segment as _, SegmentResult as SegRs};
+use crate::wrappers::{self, SegmentResult as SegPy};
+
+fn num<T: std::str::FromStr>(s: &str) -> T
+where
+    T::Err: std::fmt::Debug,
+{
+    s.parse::<T>().unwrap()
+}
+
+fn show_py(r: &SegPy) -> String {
+    match r {
+        SegPy::halt {} => "halt".to_owned(),
+        SegPy::blank {} => "blank".to_owned(),
+        SegPy::repeat {} => "repeat".to_owned(),
+        SegPy::spinout {} => "spinout".to_owned(),
+        SegPy::depth_limit {} => "depth_limit".to_owned(),
+        SegPy::segment_limit {} => "segment_limit".to_owned(),
+        SegPy::refuted { step } => format!("refuted({step})"),
+    }
+}
+
+fn show_rs(r: &SegRs) -> String {
+    match r {
+        SegRs::Halt => "halt".to_owned(),
+        SegRs::Blank => "blank".to_owned(),
+        SegRs::Repeat => "repeat".to_owned(),
+        SegRs::Spinout => "spinout".to_owned(),
+        SegRs::DepthLimit => "depth_limit".to_owned(),
+        SegRs::SegmentLimit => "segment_limit".to_owned(),
+        SegRs::Refuted(step) => format!("refuted({step})"),
+    }
+}
+
+pub fn handle(op: &str, args: &[&str], text: &str) -> Option<String> {
+    match (op, args) {
+        ("seg_halt", [segs]) => {
+            Some(show_py(&wrappers::py_segment_cant_halt(text, num(segs))))
+        },
+        ("seg_blank", [segs]) => {
+            Some(show_py(&wrappers::py_segment_cant_blank(text, num(segs))))
+        },
+        ("seg_spin_out", [segs]) => {
+            Some(show_py(&wrappers::py_segment_cant_spin_out(text, num(segs))))
+        },
+        ("segp_halt", [states, colors, segs]) => Some(show_rs(
+            &CompProg::from_str(text)
+                .seg_cant_halt((num(states), num(colors)), num(segs)),
+        )),
+        ("segp_blank", [states, colors, segs]) => Some(show_rs(
+            &CompProg::from_str(text)
+                .seg_cant_blank((num(states), num(colors)), num(segs)),
+        )),
+        ("segp_spin_out", [states, colors, segs]) => Some(show_rs(
+            &CompProg::from_str(text)
+                .seg_cant_spin_out((num(states), num(colors)), num(segs)),
+        )),
+        _ => None,
+    }
 }
